@@ -361,7 +361,7 @@ func (m *Muxer) Accept() (Tube, error) {
 // readMsg reads a new packet from the underlying MsgConn. It then sets the timeout
 // so that future calls to readMsg will timeout appropriately.
 func (m *Muxer) readMsg() (*frame, error) {
-	_, err := m.underlying.ReadMsg(m.readBuf)
+	n, err := m.underlying.ReadMsg(m.readBuf)
 	if err != nil {
 		return nil, err
 	}
@@ -370,7 +370,7 @@ func (m *Muxer) readMsg() (*frame, error) {
 	if m.timeout != 0 {
 		m.underlying.SetReadDeadline(time.Now().Add(m.timeout))
 	}
-	return fromBytes(m.readBuf)
+	return fromBytes(m.readBuf[:n])
 
 }
 
@@ -457,6 +457,12 @@ func (m *Muxer) receiver() {
 	for m.state.Load() != muxerStopped {
 		var frame *frame
 		frame, err = m.readMsg()
+		if errors.Is(err, errMalformedFrame) {
+			// A malformed message must not take the other tubes down: drop it.
+			m.log.Warn("dropping malformed frame")
+			err = nil
+			continue
+		}
 		if err != nil {
 			return
 		}
